@@ -99,6 +99,8 @@ func readOrder(wl *spg.WordList) []string {
 }
 
 func c15Run(c c15Case) error {
+	spareCap = 3 // RequireSets slices are prefixes of longer caller-owned arrays
+	defer func() { spareCap = 0 }()
 	nC := len(c.Chars)
 	// live values as a caller would hold them
 	live := make([]*spg.CharRecipe, nC)
@@ -134,8 +136,6 @@ func c15Run(c c15Case) error {
 	oldT, oldF := spg.MaxTrials, spg.MaxFailRate
 	defer func() { spg.MaxTrials, spg.MaxFailRate = oldT, oldF }()
 	cfgT, cfgF := oldT, oldF // what the caller last configured
-	spareCap = 3
-	defer func() { spareCap = 0 }()
 	lastCallOn := -1
 	setSince := map[int]bool{}
 	nontrivial := false
